@@ -54,6 +54,10 @@ def _worker(args):
             sys.modules['pysym.shims'].reset_all()
     res['task'] = task
     res['wall_s'] = round(time.time() - t0, 3)
+    try:
+        res = json.loads(json.dumps(res, default=lambda o: '<%s>' % type(o).__name__))
+    except Exception as ex:  # noqa
+        res = {'error': 'unserialisable task result: %r' % ex, 'task': task, 'wall_s': res.get('wall_s', 0)}
     return res
 
 
@@ -201,7 +205,8 @@ def main(argv=None):
         if errors:
             status = 2; reasons.append('%d task/replay errors' % len(errors))
         if timed_out or missing_tasks:
-            status = 2; reasons.append('budget exhausted: %d tasks unfinished' % missing_tasks)
+            done = {r['task'].get('name') for r in results}
+            status = 2; reasons.append('budget exhausted: %d tasks unfinished: %s' % (missing_tasks, [t.get('name') for t in tasks if t.get('name') not in done][:5]))
         if agg['unknown']:
             status = 2; reasons.append('%d inconclusive solver answers / caps' % agg['unknown'])
         if unknown_cex:
@@ -280,6 +285,10 @@ def main(argv=None):
     print('%s tier=%s paths=%d queries=%d unsat=%d sat=%d unknown=%d solver_s=%.1f wall=%.1fs status=%d %s' % (
         pid, tier, agg['paths'], agg['queries'], agg['unsat'], agg['sat'], agg['unknown'], agg['solve_s'], wall, status,
         '; '.join(reasons)))
+    slow = sorted(results, key=lambda r: -r.get('wall_s', 0))[:5]
+    if os.environ.get('VERIF_VERBOSE'):
+        for r in slow:
+            print('slow task %.1fs %s paths=%s' % (r.get('wall_s', 0), r['task'].get('name'), r.get('paths')), file=sys.stderr)
     for e in errors[:3]:
         print('ERROR in task %s:\n%s' % (e['task'], e['error']), file=sys.stderr)
     for n in notes[:5]:
